@@ -526,6 +526,24 @@ theorem disk_get_fails_racing_remove_witness :
   refine ⟨by decide, ⟨⟨rfl, trivial⟩, rfl, rfl⟩, by decide, by decide, by decide, by decide, ?_, by decide⟩
   intro h; exact absurd h.count (by decide)
 
+/-- **⟂ a get with an old index entry serves the file of a put that is not indexed yet**
+(`disk-get-serves-unindexed-put`).  The get looks key 0 up (entry of the old value, lock
+dropped); the other thread removes the key (answer `true`) and then puts `8a`: file written and
+renamed into place, index step still to come.  The get now reads the file — the NEW bytes —
+and answers `8a`; the same thread's `contains` right after says `false` (the index is empty
+until the put's last step).  No sequential order explains `get = 8a` followed by
+`contains = false` with the only remove BEFORE that put in its thread: file publication and
+index update are two instants. -/
+theorem disk_get_serves_unindexed_put_witness :
+    let y := run live0 [[.get 0, .contains 0], [.remove 0, .put 0 [0x8a] false]] [0, 1, 1, 1, 1, 1, 0, 0, 0, 1]
+    quiescent (machine layW) y = true ∧
+    y.threads.map (·.results) =
+      [[(.get 0, .val (some [0x8a])), (.contains 0, .bool false)],
+       [(.remove 0, .bool true), (.put 0 [0x8a] false, .unit)]] ∧
+    lookup 0 y.shared.index = some { size := 1, short := false } ∧
+    y.shared.fs.read (layW.fin 0) = some [0x8a] := by
+  decide
+
 /-- **⟂ a value written after an entry expired is deleted by a reader that had seen the old
 entry** (`disk-expired-get-deletes-fresh-put`, `disk-counter-drift-stale-get`).  The get sees
 the ended TTL, the put runs to completion (file renamed, entry replaced: 1 byte), the get then
